@@ -536,7 +536,7 @@ pub fn run_c07<H: HB>(tier: Tier) -> Outcome {
     // (b) extend on every reachable small state and on deep seeds, differential over hints
     {
         let t0 = Instant::now();
-        let (k, m) = if q { (3u32, 2usize) } else { (3, 3) };
+        let (k, m) = (3u32, 3usize);
         let prios: Vec<i32> = (0..m as i32).collect();
         let mut cfg = base_cfg(prop, k, &prios, A_REACH | A_APPEND | A_EXTEND);
         cfg.append_max = 2;
@@ -592,7 +592,7 @@ pub fn run_c07<H: HB>(tier: Tier) -> Outcome {
         }
     }
     // deep receivers: both sides of the push-versus-rebuild threshold
-    let sizes: Vec<usize> = if q { vec![8, 9, 16, 17] } else { vec![7, 8, 9, 10, 15, 16, 17, 31, 32, 33, 64, 65] };
+    let sizes: Vec<usize> = if q { vec![8, 9, 16, 17, 32, 33] } else { vec![7, 8, 9, 10, 15, 16, 17, 31, 32, 33, 64, 65] };
     for n in sizes {
         let t0 = Instant::now();
         let mut cfg = seeds_cfg(prop, n, &REL_TERN, A_APPEND | A_CONVERT);
